@@ -116,7 +116,9 @@ impl FileSystem for Vfs {
         handle: Option<VfsHandle>,
     ) -> Result<(stat64, Duration)> {
         match self.get_real_rootfs(inode)? {
-            (Left(fs), idata) => fs.getattr(ctx, idata.ino(), handle),
+            (Left(fs), idata) => fs
+                .getattr(ctx, idata.ino(), handle)
+                .map(|(attr, duration)| (self.convert_attr(idata, attr), duration)),
             (Right(fs), idata) => fs
                 .getattr(ctx, idata.ino(), handle)
                 .map(|(attr, duration)| (self.convert_attr(idata, attr), duration)),
@@ -588,6 +590,8 @@ impl FileSystem for Vfs {
                         None => {
                             dir_entry.ino = self.convert_inode(idata.fs_idx(), dir_entry.ino)?;
                             entry.inode = dir_entry.ino;
+                            // same owner translation as lookup_pseudo applies to pseudo directories
+                            self.remap_attr_id(idata.fs_idx(), true, &mut entry.attr);
                         }
                     }
                     entry.attr.st_ino = entry.inode;
